@@ -254,9 +254,9 @@ prop("C14", level="proof",
      functions=["DigitCount::digit_count (8 impls)", "NumToRepr::into_repr (10 integer impls)", "ToLeanString::try_to_lean_string (dispatch)"],
      verus=["v_grow", "v_num"],
      trust=["Display for integers prints sign ++ decimal digits without leading zeros (documented core behaviour)",
-            "i128/u128 go through the itoa crate: assumed (dependency); NonZero wrappers are `.get()`",
+            "i128/u128: every value is handed unchanged to itoa::Buffer::format and its output to from_str (delegation obligations num128.*); the digits itoa produces are the dependency's (assumed); NonZero wrappers are `.get()`",
             "the four extraction rewrite rules of v_num (raw-pointer writes -> Vec writes)"],
-     not_covered=["i128 / u128 / NonZero<i128> / NonZero<u128> digits (itoa)"])
+     not_covered=["the digits produced by the itoa crate for i128 / u128"])
 
 prop("C15", level="proof",
      claim="bool: both values; char: every scalar value against the UTF-8 encoding written from the definition; String/&str: from_str contract; "
